@@ -22,6 +22,20 @@ from typing import Dict, List, Optional, Tuple
 VERIF = os.path.dirname(os.path.dirname(os.path.abspath(__file__)))
 
 
+def package_part(patch_path):
+    """the part of a unified diff that touches the package sources (seeded changes may also edit CHANGELOG, docs, tests)"""
+    import re as _re, tempfile as _tf
+    txt = open(patch_path).read()
+    parts = _re.split(r"(?m)^(?=diff --git )", txt)
+    keep = [p for p in parts if p.startswith("diff --git ") and _re.match(r"diff --git a/cincoconfig/", p)]
+    if not keep or len(keep) == len([p for p in parts if p.startswith("diff --git ")]):
+        return patch_path
+    f = _tf.NamedTemporaryFile("w", suffix=".diff", delete=False)
+    f.write("".join(keep))
+    f.close()
+    return f.name
+
+
 def load_corpus() -> List[dict]:
     sys.path.insert(0, VERIF)
     from selftest.corpus import VARIANTS
@@ -54,7 +68,7 @@ def make_copy(repo: str, edits: List[dict], patch: Optional[str] = None) -> Tupl
     shutil.copytree(os.path.join(repo, "cincoconfig"), dst, ignore=shutil.ignore_patterns("__pycache__"))
     if patch:
         import subprocess
-        r = subprocess.run(["patch", "-p1", "-s", "-i", patch], cwd=tmp, capture_output=True, text=True)
+        r = subprocess.run(["patch", "-p1", "-s", "-i", package_part(patch)], cwd=tmp, capture_output=True, text=True)
         if r.returncode != 0:
             shutil.rmtree(tmp, ignore_errors=True)
             return None, "patch does not apply to the current tree: %s" % (r.stdout + r.stderr).strip()[:120]
